@@ -35,13 +35,13 @@ def all_modules():
     return list(MODULES)
 
 
-def H(module, name, desc, bounds, tier="quick", expect="pass", timeout=300, stub_env=False, stubs=()):
+def H(module, name, desc, bounds, tier="quick", expect="pass", timeout=900, stub_env=False, stubs=()):
     crate, path = MODULES[module]
     return {"crate": crate, "module": module, "name": path + "::" + name, "desc": desc, "bounds": bounds, "tier": tier,
             "expect": expect, "timeout": timeout, "stub_env": stub_env, "stubs": list(stubs)}
 
 
-def W(module, name, timeout=300, tier="quick"):
+def W(module, name, timeout=900, tier="quick"):
     return H(module, name, "reachability witness: must FAIL at its final assert!(false)", "-", tier=tier, expect="witness",
              timeout=timeout)
 
@@ -86,12 +86,12 @@ PROPS["C02"] = {
     "harnesses": [
         H(_K, "c02_key_from_bytes_iff_valid_point", "from_bytes accepts iff the validity oracle accepted exactly these bytes; bytes preserved", "all 32-byte strings"),
         H(_K, "c02_key_try_from_slice", "TryFrom<&[u8]>: Ok iff len==32 and oracle yes; other lengths never reach the oracle", "slices of 0..=40 symbolic bytes"),
-        H(_K, "c02_key_from_str_hex64_window", "64-char FromStr path == lower-case hex decoding + oracle", "10 symbolic ASCII chars (first/last 5), rest '3'", timeout=400),
+        H(_K, "c02_key_from_str_hex64_window", "64-char FromStr path == lower-case hex decoding + oracle", "10 symbolic ASCII chars (first/last 5), rest '3'", timeout=900),
         H(_K, "c02_key_from_str_hex64", "64-char FromStr path == lower-case hex decoding + oracle", "all 64 chars symbolic ASCII", tier="thorough", timeout=1500),
         H(_K, "c02_key_from_str_hex64_accepts_all_hex", "every all-lower-hex 64-char string parses (given a valid point)", "all 64 chars symbolic hex", tier="thorough", timeout=900),
         H(_K, "c02_key_from_str_other_lengths", "lengths other than 52/64 are errors without consulting the oracle, no panic", "lengths {0,1,2,51,53,63,65,66}"),
-        H(_K, "c02_key_from_str_base32_window", "52-char base32 path: case-insensitive, canonical trailing bits, oracle consulted on decoded bytes", "8 symbolic ASCII chars, rest 'A'", timeout=600),
-        H(_K, "c02_key_z32_roundtrip", "from_z32(to_z32(k)) == k", "all 32-byte keys", timeout=600),
+        H(_K, "c02_key_from_str_base32_window", "52-char base32 path: case-insensitive, canonical trailing bits, oracle consulted on decoded bytes", "8 symbolic ASCII chars, rest 'A'", timeout=900),
+        H(_K, "c02_key_z32_roundtrip", "from_z32(to_z32(k)) == k", "all 32-byte keys", timeout=900),
         H(_K, "c02_signature_roundtrip", "Signature::from_bytes/to_bytes identity; TryFrom<&[u8]> Ok iff 64 bytes", "all 64-byte strings; slices 0..=70"),
         W(_K, "c02_key_witness"),
         H(_E, "c02_custom_addr_binary_roundtrip", "from_bytes(to_vec(a)) == a fieldwise; id/data accessors; inline iff len<=30", "all ids, len 0..=40, all contents"),
@@ -112,17 +112,17 @@ def _c10():
     hs.append(H(_R, "c10_encode_health", "Health = type 11 + text", "5 ASCII chars"))
     for t, l in [(4, 0), (4, 1), (4, 33), (4, 34), (4, 41), (5, 35), (5, 36), (5, 41), (9, 9), (9, 8), (10, 9), (10, 10), (0, 9), (6, 41), (8, 33), (13, 2), (14, 9), (63, 9)]:
         hs.append(H(_R, "c10_decode_c2r_t%d_len%d" % (t, l), "server decoder == reference parse for frame type %d (types other than 4,5,9,10 are errors)" % t,
-                    "all %d-byte strings with this frame type byte" % l, timeout=300))
+                    "all %d-byte strings with this frame type byte" % l, timeout=900))
     for t, l in [(6, 0), (6, 33), (6, 34), (6, 41), (7, 35), (7, 36), (7, 41), (8, 32), (8, 33), (8, 34), (9, 9), (9, 10), (10, 9), (10, 8), (12, 8),
                  (13, 1), (13, 2), (13, 3), (0, 9), (4, 41), (5, 41), (14, 9), (63, 9)]:
         hs.append(H(_R, "c10_decode_r2c_t%d_len%d" % (t, l), "client decoder == reference parse for frame type %d, both versions (Status only in V2; non relay->client types are errors)" % t,
-                    "all %d-byte strings with this frame type byte" % l, timeout=300))
+                    "all %d-byte strings with this frame type byte" % l, timeout=900))
     hs.append(H(_R, "c10_decode_r2c_t12_len9", "Restarting decodes to its two big-endian u32 millisecond durations", "all 9-byte strings of type 12", tier="thorough", timeout=900))
     hs.append(H(_R, "c10_decode_health", "Health only in V1, text preserved, invalid UTF-8 rejected", "type 11 + 4 symbolic bytes, both versions"))
-    hs.append(H(_R, "c10_decode_long_varint_total", "multi-byte varint frame types never panic; out-of-range tags are errors", "12 symbolic bytes, first >= 64", timeout=600))
-    hs.append(H(_R, "c10_limit_agreement", "a frame at the sender-side size limit is accepted by the receiving decoder", "frame of exactly MAX_PACKET_SIZE bytes", timeout=600))
-    hs.append(H(_R, "c10_limit_agreement_r2c", "a relay->client datagram frame (single and batch) of exactly MAX_PACKET_SIZE bytes - the largest the relay's sending half lets through - is accepted by the client decoder, both versions", "frames of exactly MAX_PACKET_SIZE bytes", timeout=600))
-    hs.append(W(_R, "c10_witness", timeout=600))
+    hs.append(H(_R, "c10_decode_long_varint_total", "multi-byte varint frame types never panic; out-of-range tags are errors", "12 symbolic bytes, first >= 64", timeout=900))
+    hs.append(H(_R, "c10_limit_agreement", "a frame at the sender-side size limit is accepted by the receiving decoder", "frame of exactly MAX_PACKET_SIZE bytes", timeout=900))
+    hs.append(H(_R, "c10_limit_agreement_r2c", "a relay->client datagram frame (single and batch) of exactly MAX_PACKET_SIZE bytes - the largest the relay's sending half lets through - is accepted by the client decoder, both versions", "frames of exactly MAX_PACKET_SIZE bytes", timeout=900))
+    hs.append(W(_R, "c10_witness", timeout=900))
     return hs
 
 PROPS["C10"] = {
@@ -167,14 +167,14 @@ PROPS["C32"] = {
         H(_P, "c32_from_relay_payload_uses_given_key_parses", "from_relay_payload(K,x) verifies under K and embeds K; to_relay_payload inverts (payload oracle says yes)", "74-byte payloads", timeout=900, stub_env=True, stubs=["decompress", "verify", "Packet::parse", "format"]),
         H(_P, "c32_from_relay_payload_uses_given_key_parse_fails", "from_relay_payload(K,x) verifies under K and embeds K; to_relay_payload inverts (payload oracle says no => always rejected)", "74-byte payloads", timeout=900, stub_env=True, stubs=["decompress", "verify", "Packet::parse", "format"]),
         H(_P, "c32_size_limits", "too short / too long inputs rejected before any oracle is consulted", "lengths 0,1,96,103,1105"),
-        H(_P, "c32_unchecked_is_safe_to_inspect", "values from from_bytes_unchecked / from_parts_unchecked can be inspected without panic", "106-byte inputs, all bytes symbolic", timeout=600, stub_env=True, stubs=["decompress", "Packet::parse"]),
-        H(_P, "c32_parts_unchecked_k0_s0", "from_parts_unchecked with a 0-byte key and 0-byte signature part: whatever is returned Ok is a full header and can be inspected without panic", "12-byte payload; signature/timestamp/payload symbolic, key part zeros", timeout=600, stub_env=True, stubs=["decompress", "Packet::parse"]),
-        H(_P, "c32_parts_unchecked_k32_s0", "from_parts_unchecked with a 32-byte key and 0-byte signature part: whatever is returned Ok is a full header and can be inspected without panic", "12-byte payload; signature/timestamp/payload symbolic, key part zeros", timeout=600, stub_env=True, stubs=["decompress", "Packet::parse"]),
-        H(_P, "c32_parts_unchecked_k32_s63", "from_parts_unchecked with a 32-byte key and 63-byte signature part: whatever is returned Ok is a full header and can be inspected without panic", "12-byte payload; signature/timestamp/payload symbolic, key part zeros", timeout=600, stub_env=True, stubs=["decompress", "Packet::parse"]),
-        H(_P, "c32_parts_unchecked_k31_s64", "from_parts_unchecked with a 31-byte key and 64-byte signature part: whatever is returned Ok is a full header and can be inspected without panic", "12-byte payload; signature/timestamp/payload symbolic, key part zeros", timeout=600, stub_env=True, stubs=["decompress", "Packet::parse"]),
-        H(_P, "c32_parts_unchecked_k32_s52", "from_parts_unchecked with a 32-byte key and 52-byte signature part: whatever is returned Ok is a full header and can be inspected without panic", "12-byte payload; signature/timestamp/payload symbolic, key part zeros", timeout=600, stub_env=True, stubs=["decompress", "Packet::parse"]),
-        H(_P, "c32_parts_unchecked_exact_and_long_parts", "same for exact and over-long parts", "(32,64),(33,64),(32,65),(31,65),(33,63)", timeout=600),
-        W(_P, "c32_witness", timeout=600),
+        H(_P, "c32_unchecked_is_safe_to_inspect", "values from from_bytes_unchecked / from_parts_unchecked can be inspected without panic", "106-byte inputs, all bytes symbolic", timeout=900, stub_env=True, stubs=["decompress", "Packet::parse"]),
+        H(_P, "c32_parts_unchecked_k0_s0", "from_parts_unchecked with a 0-byte key and 0-byte signature part: whatever is returned Ok is a full header and can be inspected without panic", "12-byte payload; signature/timestamp/payload symbolic, key part zeros", timeout=900, stub_env=True, stubs=["decompress", "Packet::parse"]),
+        H(_P, "c32_parts_unchecked_k32_s0", "from_parts_unchecked with a 32-byte key and 0-byte signature part: whatever is returned Ok is a full header and can be inspected without panic", "12-byte payload; signature/timestamp/payload symbolic, key part zeros", timeout=900, stub_env=True, stubs=["decompress", "Packet::parse"]),
+        H(_P, "c32_parts_unchecked_k32_s63", "from_parts_unchecked with a 32-byte key and 63-byte signature part: whatever is returned Ok is a full header and can be inspected without panic", "12-byte payload; signature/timestamp/payload symbolic, key part zeros", timeout=900, stub_env=True, stubs=["decompress", "Packet::parse"]),
+        H(_P, "c32_parts_unchecked_k31_s64", "from_parts_unchecked with a 31-byte key and 64-byte signature part: whatever is returned Ok is a full header and can be inspected without panic", "12-byte payload; signature/timestamp/payload symbolic, key part zeros", timeout=900, stub_env=True, stubs=["decompress", "Packet::parse"]),
+        H(_P, "c32_parts_unchecked_k32_s52", "from_parts_unchecked with a 32-byte key and 52-byte signature part: whatever is returned Ok is a full header and can be inspected without panic", "12-byte payload; signature/timestamp/payload symbolic, key part zeros", timeout=900, stub_env=True, stubs=["decompress", "Packet::parse"]),
+        H(_P, "c32_parts_unchecked_exact_and_long_parts", "same for exact and over-long parts", "(32,64),(33,64),(32,65),(31,65),(33,63)", timeout=900),
+        W(_P, "c32_witness", timeout=900),
     ],
 }
 PROPS["C33"] = {
@@ -184,9 +184,9 @@ PROPS["C33"] = {
     "stubs": ["std::time::SystemTime::now -> arbitrary reading (may go backwards)", "portable_atomic::AtomicU64::compare_exchange_weak -> environment step (cell raised to an arbitrary larger value / spurious failure) then the real comparison"],
     "assumptions": ["rely: other threads modify LAST_TIMESTAMP only by running Timestamp::now, i.e. only raise it to values they return"],
     "harnesses": [
-        H(_P, "c33_now_exceeds_cell_under_interference", "returned value > cell value immediately before the successful CAS; cell == returned value afterwards (guarantee => strict global monotonicity by induction)", "<= 3 interferences per call", timeout=600, stub_env=True, stubs=["SystemTime::now", "compare_exchange_weak"]),
-        H(_P, "c33_sequential_calls_strictly_increase", "two sequential calls strictly increase for arbitrary clocks", "all clock readings < 2^62", timeout=600, stub_env=True, stubs=["SystemTime::now"]),
-        W(_P, "c33_witness", timeout=600),
+        H(_P, "c33_now_exceeds_cell_under_interference", "returned value > cell value immediately before the successful CAS; cell == returned value afterwards (guarantee => strict global monotonicity by induction)", "<= 3 interferences per call", timeout=900, stub_env=True, stubs=["SystemTime::now", "compare_exchange_weak"]),
+        H(_P, "c33_sequential_calls_strictly_increase", "two sequential calls strictly increase for arbitrary clocks", "all clock readings < 2^62", timeout=900, stub_env=True, stubs=["SystemTime::now"]),
+        W(_P, "c33_witness", timeout=900),
     ],
 }
 PROPS["C37"] = {
@@ -196,9 +196,9 @@ PROPS["C37"] = {
     "stubs": [],
     "assumptions": ["kernel only: the store keeps a packet unless existing.more_recent_than(new) (store/signed_packets.rs, by reading); a strict total order makes that converge to the maximum for every arrival order"],
     "harnesses": [
-        H(_P, "c37_more_recent_than_strict_total_order", "irreflexive, asymmetric, transitive, total on distinct (timestamp,payload); agrees with lexicographic order", "3 packets, 3-byte payloads", timeout=600),
-        H(_P, "c37_more_recent_than_prefix_payloads", "payloads of different length at equal timestamps are strictly ordered (prefix is older)", "payload lengths 2 and 3", timeout=600),
-        W(_P, "c37_witness", timeout=600),
+        H(_P, "c37_more_recent_than_strict_total_order", "irreflexive, asymmetric, transitive, total on distinct (timestamp,payload); agrees with lexicographic order", "3 packets, 3-byte payloads", timeout=900),
+        H(_P, "c37_more_recent_than_prefix_payloads", "payloads of different length at equal timestamps are strictly ordered (prefix is older)", "payload lengths 2 and 3", timeout=900),
+        W(_P, "c37_witness", timeout=900),
     ],
 }
 
@@ -218,7 +218,7 @@ PROPS["C05"] = {
     "harnesses": [
         H(_S, "c05_forwardable_iff_sink_accepts_single", "is_forwardable(d) <=> the receiver's sink-side checks accept the re-framed message (non-empty, <= MAX_PACKET_SIZE)", "payload length 0..=65544 symbolic, single datagram"),
         H(_S, "c05_forwardable_iff_sink_accepts_batch", "same for batches (2 more header bytes)", "payload length 0..=65544 symbolic, batch"),
-        H(_CL, "c05_only_forwardable_enters_queue", "Client::try_send_packet queues a datagram batch for the destination's actor iff the destination's sink accepts its frame; everything else is dropped with Ok and the queue is untouched", "payload length 0..=65544 symbolic, single and batch; partially initialised Client (packet queue only)", timeout=600),
+        H(_CL, "c05_only_forwardable_enters_queue", "Client::try_send_packet queues a datagram batch for the destination's actor iff the destination's sink accepts its frame; everything else is dropped with Ok and the queue is untouched", "payload length 0..=65544 symbolic, single and batch; partially initialised Client (packet queue only)", timeout=900),
         W(_S, "c05_witness"),
     ],
 }
@@ -231,12 +231,12 @@ PROPS["C09"] = {
     "stubs": [CLOCK, BT],
     "assumptions": ["one inductive step from every state satisfying fill <= max, refill >= 1 covers histories of any length"],
     "harnesses": [
-        H(_S, "c09_from_config_total_and_full_16bit", "from_config: never panics, full bucket, burst default rate/10, refill = rate/10, rejects only rate<10 or zero burst", "rates <= 2^16, all optional bursts", timeout=600),
+        H(_S, "c09_from_config_total_and_full_16bit", "from_config: never panics, full bucket, burst default rate/10, refill = rate/10, rejects only rate<10 or zero burst", "rates <= 2^16, all optional bursts", timeout=900),
         H(_S, "c09_from_config_total_and_full_32bit", "same", "all NonZeroU32 rates", tier="thorough", timeout=3000),
         H(_S, "c09_consume_step_8bit", "one consume step from any reachable state: no refill before a full period, refill = whole elapsed periods x refill capped at max, admit iff tokens remain, deadline >= one period after the refill clock, refill clock within one period of now", "8-bit ranges", timeout=900),
         H(_S, "c09_consume_step_12bit", "same", "12-bit ranges", tier="thorough", timeout=3000),
         H(_S, "c09_throttle_deadline_exact_6bit", "throttle deadline = first period boundary with positive fill (resume no later, not earlier)", "6-bit ranges", timeout=900),
-        H(_S, "c09_consume_never_panics", "no byte count / elapsed time / reachable state makes consume panic or leave fill > max", "rate up to u32::MAX, n any usize, clock < 2^41 ms", timeout=600),
+        H(_S, "c09_consume_never_panics", "no byte count / elapsed time / reachable state makes consume panic or leave fill > max", "rate up to u32::MAX, n any usize, clock < 2^41 ms", timeout=900),
         W(_S, "c09_witness"),
     ],
 }
@@ -261,8 +261,8 @@ PROPS["C14"] = {
     "stubs": [RNG, CLOCK, TRACING],
     "assumptions": [],
     "harnesses": [
-        H(_PT, "c14_latest_ping_only", "tracker armed iff latest ping unanswered; deadline = its send time + timeout in force; rtt only from a matching pong (= now - send time); stale/forged pongs change nothing", "every history of 3 operations, clock in 100 ms ticks", timeout=600, stub_env=True, stubs=["rand::random", "Instant::now"]),
-        H(_PT, "c14_timeout_is_clamped_triple_rtt", "ping_timeout() == clamp(3*rtt, 500 ms, max), max when unmeasured", "max 1..=120 s, rtt 0..=200 s in ms", timeout=600),
+        H(_PT, "c14_latest_ping_only", "tracker armed iff latest ping unanswered; deadline = its send time + timeout in force; rtt only from a matching pong (= now - send time); stale/forged pongs change nothing", "every history of 3 operations, clock in 100 ms ticks", timeout=900, stub_env=True, stubs=["rand::random", "Instant::now"]),
+        H(_PT, "c14_timeout_is_clamped_triple_rtt", "ping_timeout() == clamp(3*rtt, 500 ms, max), max when unmeasured", "max 1..=120 s, rtt 0..=200 s in ms", timeout=900),
         H(_PT, "c14_stale_pong_ignored", "a pong for an older ping or with forged data changes nothing", "2 pings, 3 pongs", stub_env=True, stubs=["rand::random", "Instant::now"]),
         W(_PT, "c14_witness"),
     ],
@@ -292,7 +292,7 @@ PROPS["C19"] = {
     "stubs": [],
     "assumptions": [],
     "harnesses": [
-        H(_I, "c19_valid_send_addr_matches_rule", "is_valid_send_addr == (source given: same family and bound address unspecified or equal; none: subnet contains destination, or link-local v6 destination on the socket's scope)", "all configs/destinations/sources", timeout=600),
+        H(_I, "c19_valid_send_addr_matches_rule", "is_valid_send_addr == (source given: same family and bound address unspecified or equal; none: subnet contains destination, or link-local v6 destination on the socket's scope)", "all configs/destinations/sources", timeout=900),
         H(_I, "c19_valid_default_addr_matches_rule", "is_valid_default_addr == default-flagged socket of the family of the source (else of the destination)", "all configs/destinations/sources"),
         W(_I, "c19_witness"),
     ],
@@ -320,9 +320,9 @@ PROPS["C03"] = {
     "stubs": [KEY_ALLVALID, KEY_ORACLE, SIG_ORACLE, "blake3::derive_key -> uninterpreted function (records input, fresh output)", BT],
     "assumptions": ["the two verification kernels are what serverside() calls to decide admission (by reading handshake.rs)"],
     "harnesses": [
-        H(_H, "c03_key_material_auth_binds_key_and_session", "key-material auth Ok iff exporter(context = claimed key) suffix matches and the oracle accepts (claimed key, first 16 bytes of that material, client signature)", "all symbolic", timeout=600, stub_env=True, stubs=["verify"]),
-        H(_H, "c03_challenge_auth_binds_key_and_challenge", "challenge auth Ok iff the oracle accepts (claimed key, derive_key(domain, this challenge), client signature)", "all symbolic", timeout=600, stub_env=True, stubs=["verify", "derive_key"]),
-        H(_H, "c03_client_auth_frame_decoding", "the ClientAuth frame decodes to exactly the key and signature bytes sent; only valid points accepted", "all 97-byte bodies", timeout=600),
+        H(_H, "c03_key_material_auth_binds_key_and_session", "key-material auth Ok iff exporter(context = claimed key) suffix matches and the oracle accepts (claimed key, first 16 bytes of that material, client signature)", "all symbolic", timeout=900, stub_env=True, stubs=["verify"]),
+        H(_H, "c03_challenge_auth_binds_key_and_challenge", "challenge auth Ok iff the oracle accepts (claimed key, derive_key(domain, this challenge), client signature)", "all symbolic", timeout=900, stub_env=True, stubs=["verify", "derive_key"]),
+        H(_H, "c03_client_auth_frame_decoding", "the ClientAuth frame decodes to exactly the key and signature bytes sent; only valid points accepted", "all 97-byte bodies", timeout=900),
         W(_H, "c03_witness"),
     ],
 }
@@ -351,7 +351,7 @@ PROPS["C42"] = {
     "harnesses": [
         H(_HK, "c42_after_handshake_0_hooks", "no hooks => Accept", "0 hooks"),
         H(_HK, "c42_after_handshake_2_hooks", "result is the first rejecting hook's error code and reason, else Accept; order as above", "2 hooks, all patterns, any codes"),
-        H(_HK, "c42_after_handshake_3_hooks", "same", "3 hooks", timeout=600),
+        H(_HK, "c42_after_handshake_3_hooks", "same", "3 hooks", timeout=900),
         W(_HK, "c42_after_witness"),
     ],
 }
@@ -366,9 +366,9 @@ PROPS["C01"] = {
     "stubs": [KEY_ALLVALID, KEY_ORACLE, SIG_ORACLE, BT],
     "assumptions": ["rustls verifies the handshake signature against the end-entity certificate it passed to verify_server_cert (rustls contract)"],
     "harnesses": [
-        H(_V, "c01_handshake_signature_is_checked_with_the_presented_key", "verify_signature Ok iff 32-byte valid key, 64-byte signature and the oracle accepts exactly (key, message, signature)", "key 31..=33 B, signature 63..=65 B, all symbolic", timeout=600, stub_env=True, stubs=["decompress", "verify"]),
+        H(_V, "c01_handshake_signature_is_checked_with_the_presented_key", "verify_signature Ok iff 32-byte valid key, 64-byte signature and the oracle accepts exactly (key, message, signature)", "key 31..=33 B, signature 63..=65 B, all symbolic", timeout=900, stub_env=True, stubs=["decompress", "verify"]),
         H(_V, "c01_server_cert_must_be_spki_of_dialed_id", "with the name derived from dialed id K, a presented certificate is accepted iff it is exactly the Ed25519 SPKI of K; the derived name decodes back to K", "any K, every 44-byte certificate", timeout=900),
-        H(_V, "c01_chains_and_other_names_rejected", "intermediates, other certificate lengths and non-DNS names are rejected; client certs accepted only without intermediates", "fixed key, symbolic intermediate", timeout=600),
+        H(_V, "c01_chains_and_other_names_rejected", "intermediates, other certificate lengths and non-DNS names are rejected; client certs accepted only without intermediates", "fixed key, symbolic intermediate", timeout=900),
         W(_V, "c01_witness"),
     ],
 }
